@@ -82,7 +82,7 @@ def h_perm(params, vals, ctx):
     o2 = assemble(pre + [("a.mac", t2)], vals, route=ctx.route)
     ctx.observe_outcome(o1)
     ctx.observe_outcome(o2)
-    ctx.reach(o1.status == "ok" and o2.status == "ok")
+    ctx.reach((o1.status == "ok" and o2.status == "ok") if not params.get("reach_failed") else (o1.status == "failed" and o2.status == "failed"))
     if not same(o1, o2):
         return False
     if params.get("expect_fail_when") is not None:
@@ -232,6 +232,24 @@ def obligations(tier, seed):
             if var == ucan:
                 continue
             obs.append(_ob(f"unused-failing/{''.join(map(str, p))}-{pl}", ucan, var, ["A"], expect_fail_when=["A", 1], ranges={"A": [-1000, 1000]}))
+    # the operand of a location-counter assignment ('. = expr', after the base is known) defined before or after it
+    for oname, body in (("skip-abs", [".byte 1", ". = LB + gap + 2", "L1: .word L1", ".word gap"]), ("skip-rel", [".word 1", ". = . + gap", "L1: .word L1, gap"]),
+                        ("skip-twice", [".word 1", ". = . + gap", "L1: .word L1", ". = L1 + gap + 2", "L2: .word L2 - L1"])):
+        ddefs = ["g0 = {A}", "gap = g0 * 2"]
+        dcan = "\n".join([".link {B}", "LB: nop"] + ddefs + body) + "\n"
+        for vname, lines in (("after", body + ddefs), ("after-reversed", body + ddefs[::-1]), ("split", ddefs[1:] + body + ddefs[:1])):
+            obs.append(_ob(f"dot-assign/{oname}/{vname}", dcan, "\n".join([".link {B}", "LB: nop"] + lines) + "\n", ["A", "B"], ranges={"A": [0, 6]}))
+    # definitions that are also exported, in every order: the outcome (here: also WHICH outcome -- '==' under '.extern all' is a duplicate) stays
+    for fam, edefs in (("extern-all+==", [".extern all", "K == {A}", "J = K + 1"]), ("extern-name+=", [".extern K", "K = {A}", "J == K + 1"]),
+                       ("label::+extern-all", ["K:: .word {A}", ".extern all", "J = K + 2"])):
+        euse = [".word J, K"]
+        ecan = "\n".join(edefs + euse) + "\n"
+        for p in itertools.permutations(range(3)):
+            for pl in ("before", "after"):
+                d = [edefs[i] for i in p]
+                var = "\n".join((d + euse) if pl == "before" else (euse + d)) + "\n"
+                if var != ecan:
+                    obs.append(_ob(f"export-forms/{fam}/{''.join(map(str, p))}-{pl}", ecan, var, ["A"], ranges={"A": [-1000, 1000]}, reach_failed=fam != "extern-name+="))
     # the same name exported by a file linked earlier: the file's own (later) definition still wins, wherever it is placed
     other = [["o.mac", "lim == {C}\n.word lim\n"]]
     sdefs = ["lim = {A}", "size = lim * 2 + 1"]
@@ -251,14 +269,19 @@ def obligations(tier, seed):
                           params={"shape": shape, "early_poly": early_poly}, vars={"A": "int", "B": "int", "K1": "int", "K2": "int", "C0": "int"},
                           timeout=300, per_path=90, note="unit-level: LinearPolynomial/Deferred/Promise algebra over pending values, all integers"))
     # long chains
-    for n, kind in ((8, "add"), (20, "add"), (6, "nonlin")):
+    for n, kind in ((8, "add"), (20, "add"), (6, "nonlin"), (300, "add")):
         defs = chain_defs(n, kind)
         use = [f".word c{n}"] if kind == "add" else [f"mov #c{n}, r0"]
         can = "\n".join(defs + use) + "\n"
         orders = {"reverse": list(reversed(defs)), "interleaved": defs[::2] + defs[1::2], "use-first": None}
+        if n >= 100:
+            orders = {"use-first": None}    # the property's stated depth, in the order that defers everything
         for oname, od in orders.items():
             var = "\n".join((use + list(reversed(defs))) if od is None else (od + use)) + "\n"
             vars_ = ["A"] + (["C"] if kind == "nonlin" else [])
             exp = [f"c{n}", [sum(range(1, n + 1)), 1, 0]] if kind == "add" else None
-            obs.append(_ob(f"chain/{kind}{n}/{oname}", can, var, vars_, expect=exp))
+            ob = _ob(f"chain/{kind}{n}/{oname}", can, var, vars_, expect=exp)
+            if n >= 100:
+                ob.timeout = 900
+            obs.append(ob)
     return obs
